@@ -26,12 +26,14 @@ package dotenv
 
 //@ func (*parser).locateKeyName
 //@   nopanic[C01,C18]
+//@   ensures[C18] err == nil ==> len(result.0) >= 1      // an empty key is invalid (property text); KNOWN FINDING: `=x` is accepted, pinned by the repository's own TestParsing
 //@   ensures[C18] err == nil ==> len(result.1) <= len(src)
 //@   ensures[C18] err == nil ==> len(src) >= 1
 //@   ensures[C18] err != nil ==> result.0 == "" && result.1 == ""
 
 //@ func (*parser).extractVarValue
 //@   nopanic[C01,C18]
+//@   requires lookupFn != nil
 //@   ensures[C18] err == nil ==> len(result.1) <= len(src)
 //@   ensures[C18] err == nil && len(src) >= 1 && (sat(src, 0) == '"' || sat(src, 0) == '\'') ==> len(result.1) < len(src)
 //@   loop 1
